@@ -140,9 +140,10 @@ pub fn run(rep: &mut Report, tier: &str, seed: u64) {
             let n = graph.node_count();
             let (ga, gb) = (r.below(n), r.below(n));
             let lazy = r.chance(1, 2);
-            let cfg = RunCfg { lazy, globals: vec![("ga".into(), gnode_ref(ga)), ("gb".into(), gnode_ref(gb))], debug: None, cancel_at: None };
+            let cfg = RunCfg { lazy, globals: vec![("ga".into(), gnode_ref(ga)), ("gb".into(), gnode_ref(gb))], outer_globals: vec![], debug: None, cancel_at: None };
             let before = graph_sexp(&graph, Some(&info));
             let mut table = OracleTable::new();
+            table.arm_sets = crate::astx::scan_arm_sets(&file);
             let ir = run_impl_into(&mut graph, &file, &source.tree, &source.src, &info, &cfg);
             let model = run_model_into(&mut drv, &mut table, &mi, &cfg, &before);
             let class = outcome_class(&ir.outcome);
